@@ -858,6 +858,11 @@ def gen_state_op(rng, machine):
 
 def gen_addr(rng, span):
     """An address such that [addr, addr+span) lies in 0..65535, biased to the 16K boundaries."""
+    r0 = rng.random()
+    if r0 < 0.12:
+        return 0x10000 - max(span, 1)              # the range ends with the last byte of memory
+    if r0 < 0.18:
+        return 0x4000                              # ... or starts with the first byte of RAM
     if rng.random() < 0.6:
         e = rng.choice(EDGES)
         a = e + rng.randrange(-span, 17) if e in (0x4000, 0x8000, 0xC000) else e + rng.randrange(0, 16)
